@@ -213,6 +213,9 @@ def parse_call(input_string: str) -> CallDef:
         # Produce a nice error message if the pn string is empty
         if place_notation_str == "":
             exit_with_message("Place notation strings cannot be empty.")
+        # ... or if it could not be converted into place notation when the row generator is created
+        if not valid_pn(place_notation_str):
+            exit_with_message(f"Place notation '{place_notation_str}' is invalid.")
 
         # Insert the new call definition into the dictionary
         if location in parsed_calls:
